@@ -68,6 +68,13 @@ TRANSLATION TABLE (Python → Lean)
   nsmallest(n, xs)                      (Py.nsmallest lt n.toNat xs): the first n of the stable sort by the translated `__lt__`
   obj.PROP (registry props)             (PROP obj): call of the translated property getter;  len(obj) → (len_ obj) if `__len__` is translated
   record given as `extern`              the hand-written model's structure; attributes map to its fields as the registry says
+  X is not None and rest (test position, X : Option)   (match X with | some x => rest | none => false)   x == opt → (some x == opt)
+  self._xs.append(e) / .remove(e) on a state list   let xs := xs ++ [e] / xs.erase e; registry list_remove_raises: `if xs.contains e then … else
+                                        .error Py.Err.Value`;  xs.copy() → xs;  self.PROP after state writes → (PROP { self with … })
+  registry effect `self.PROP=`: self.PROP = e   let effects_ := effects_ ++ [(e)]    (the property's setter runs with e)
+  x.m(args), x a record parameter in the registry state, m a translated mutator   match (m x args) with | (.error e, ..) => error e passed on
+                                        | (.ok _, v1, ..) => let x := { x with f1 := v1, .. }; `self` as an argument → self.<self_as>;
+                                        self._a = x → (some x.<ref_key>);  X is [not] None → X.isNone / X.isSome;  "C.p.setter": the `@p.setter` def
 NOT in the subset: floats, strings (except in `raise`), dict values, sets, slices, list indexing, nested defs, lambda,
 try/with, while without fuel, *args/**kwargs, walrus, global state, division by 0.
 """
@@ -130,6 +137,9 @@ class Fn:
     order: str | None = None       # Lean name of the translated `__lt__` that heappush / heappop compare with
     props: dict = field(default_factory=dict)     # attribute that is a @property -> python name of its translated getter
     defaults_ok: bool = True       # parameters' default values are ignored (callers pass everything)
+    list_remove_raises: bool = False   # (cells) `self._xs.remove(e)` on a state list raises ValueError when `e` is absent
+    self_as: str | None = None     # (cells) field of self's record that stands for `self` where it is passed as an argument
+    ref_key: dict = field(default_factory=dict)   # (cells) record name -> field naming the object where a reference to it is stored
 
 
 EXTERN = {}     # record name -> Lean name of extern records (filled by generate_group)
@@ -157,6 +167,13 @@ def find_function(tree, qualname):
     body = tree.body
     node = None
     for part in qualname.split("."):
+        if part == "setter" and isinstance(node, ast.FunctionDef):      # "Class.prop.setter": the def decorated `@prop.setter`
+            node = next((n for n in outer if isinstance(n, ast.FunctionDef) and n.name == node.name and any(
+                isinstance(d, ast.Attribute) and d.attr == "setter" for d in n.decorator_list)), None)
+            if node is None:
+                raise Untranslatable(f"{qualname}: no `@….setter` found in the source")
+            continue
+        outer = body
         node = next((n for n in body if isinstance(n, (ast.ClassDef, ast.FunctionDef)) and n.name == part), None)
         if node is None:
             raise Untranslatable(f"{qualname}: `{part}` not found in the source")
@@ -238,6 +255,9 @@ class Translator:
 
     def cond(self, e, env):
         """a test position: Bool text, with Python truthiness"""
+        r = self.cells_narrowing_and(e, env)          # `X is not None and …` (cells extension)
+        if r is not None:
+            return r
         if isinstance(e, ast.BoolOp):
             op = " && " if isinstance(e.op, ast.And) else " || "
             return "(" + op.join(self.cond(x, env) for x in e.values) + ")"
@@ -317,6 +337,8 @@ class Translator:
 
     def _cmp(self, op, l, r, node):
         (a, ta), (b, tb) = l, r
+        if isinstance(op, (ast.Eq, ast.NotEq)) and self.closed(ta) and self.closed(tb) and (tb == ("O", ta) or ta == ("O", tb)):
+            a, b = (f"(some {a})", b) if tb == ("O", ta) else (a, f"(some {b})")     # x == None-able: equal iff it is that value (cells extension)
         if isinstance(op, (ast.Eq, ast.NotEq)):
             return f"({a} {'==' if isinstance(op, ast.Eq) else '!='} {b})"
         if isinstance(op, (ast.In, ast.NotIn)):
@@ -340,6 +362,11 @@ class Translator:
 
     def e_Compare(self, e, env):
         operands = [e.left, *e.comparators]
+        if len(e.ops) == 1 and isinstance(e.ops[0], (ast.Is, ast.IsNot)) and isinstance(e.comparators[0], ast.Constant) \
+                and e.comparators[0].value is None:                       # `X is [not] None`, X an Option (cells extension)
+            t, ty = self.expr(e.left, env)
+            if ty and ty[0] == "O":
+                return f"{t}.{'isSome' if isinstance(e.ops[0], ast.IsNot) else 'isNone'}", "Bool"
         # tuples (literals or values of a fixed-tuple type) compared lexicographically
         if len(e.ops) == 1 and isinstance(e.ops[0], (ast.Lt, ast.LtE, ast.Gt, ast.GtE)):
             sides = [self.components(x, env) for x in operands]
@@ -358,6 +385,10 @@ class Translator:
         d = _dotted(e)
         if d in env:                                  # state attribute held in a local
             return self.v(d), env[d]
+        if isinstance(e.value, ast.Name) and e.value.id == "self" and self.fn.state and e.attr in self.fn.props \
+                and self.fn.props[e.attr] in self.group:      # property of `self` read after state writes (cells extension)
+            gfn, rty = self.group[self.fn.props[e.attr]]
+            return f"({gfn.name} {self.cells_self_now(env)})", rty
         t, ty = self.expr(e.value, env)
         if ty and ty[0] == "R" and e.attr in self.fn.props and self.fn.props[e.attr] in self.group:
             gfn, rty = self.group[self.fn.props[e.attr]]
@@ -454,6 +485,10 @@ class Translator:
             t, ty = self.expr(e.func.value, env)
             if ty and ty[0] == "D":
                 return f"(List.lookup {vals[0][0]} {t})", ("O", ty[2])
+        if f and f.endswith(".copy") and not vals and isinstance(e.func, ast.Attribute):     # xs.copy() of a list: values are immutable
+            t, ty = self.expr(e.func.value, env)
+            if ty and ty[0] == "L":
+                return t, ty
         if f and f.endswith(".keys") and not vals:          # keys of a dict used as an ordered set
             t, ty = self.expr(e.func.value, env)
             if ty and ty[0] == "L":
@@ -630,6 +665,15 @@ class Translator:
             self.bad(s, "chained assignment")
         tg = s.targets[0]
         env = dict(env)
+        if isinstance(tg, ast.Attribute) and _dotted(tg) and _dotted(tg) + "=" in self.fn.effects:
+            # registry effect `self.PROP=`: the assignment runs the property's setter with this value (cells extension)
+            return self.let(OUT, f"{OUT} ++ [({self.expr(s.value, env)[0]})]") + k(env)
+        if isinstance(tg, ast.Attribute) and _dotted(tg) in env and _dotted(tg) in self.fn.state and isinstance(s.value, ast.Name) \
+                and (env.get(s.value.id) or ("",))[0] == "R" and env[s.value.id][1] in self.fn.ref_key:
+            # a reference to a record object stored in an attribute: the object is named by its registry `ref_key` field
+            key = f"{self.v(s.value.id)}.{self.fn.ref_key[env[s.value.id][1]]}"
+            sty = self.fn.state[_dotted(tg)]
+            return self.let(self.v(_dotted(tg)), f"(some {key})" if sty[0] == "O" else key, sty, annotate=True) + k(env)
         if isinstance(tg, ast.Subscript) and _dotted(tg.value) in env:
             x, tx = _dotted(tg.value), env[_dotted(tg.value)]
             if tx and tx[0] == "D":
@@ -722,6 +766,12 @@ class Translator:
             if len(vals) != len(self.fn.effects[f]) - 1:
                 self.bad(c, f"effect call `{f}` with an unexpected argument list")
             return self.let(OUT, f"{OUT} ++ [({', '.join(vals)})]") + k(env)
+        r = self.cells_state_list_call(c, env, k)      # `self._xs.append(e)` / `self._xs.remove(e)` on a state list (cells extension)
+        if r is not None:
+            return r
+        r = self.cells_record_method_call(c, env, k)   # `param.m(args)`: a translated mutator of a record parameter (cells extension)
+        if r is not None:
+            return r
         if isinstance(c.func, ast.Attribute) and isinstance(c.func.value, ast.Name) and c.func.value.id in env:
             x, tx, meth = c.func.value.id, env[c.func.value.id], c.func.attr
             if tx and tx[0] == "L" and len(c.args) == 1 and not c.keywords and meth in ("append", "remove"):
@@ -895,6 +945,74 @@ class Translator:
         return [f"let {tup} := List.foldl (fun {tup} {pat} => ("] + _ind(body, 4) + [f"  )) {tup} {it}"] + k(env)
 
     # ------------------------------------------------------------------ the definition
+    # ------------------------------------------------------------------ cells extension (Cell.add_agent / remove_agent …)
+    def cells_narrowing_and(self, e, env):
+        """`X is not None and rest` with X a name / attribute of an Option type, in a test position:
+           (match X with | some x => rest[x] | none => false) — inside `rest` X has the value type (Python's narrowing)"""
+        if not (isinstance(e, ast.BoolOp) and isinstance(e.op, ast.And) and len(e.values) >= 2):
+            return None
+        t = e.values[0]
+        if not (isinstance(t, ast.Compare) and len(t.ops) == 1 and isinstance(t.ops[0], ast.IsNot) and
+                isinstance(t.comparators[0], ast.Constant) and t.comparators[0].value is None):
+            return None
+        d = _dotted(t.left)
+        if d is None:
+            return None
+        x, tx = self.expr(t.left, env)
+        if not tx or tx[0] != "O":
+            return None
+        rest = e.values[1] if len(e.values) == 2 else ast.copy_location(ast.BoolOp(op=ast.And(), values=e.values[1:]), e)
+        inner = self.cond(rest, dict(env, **{d: tx[1]}))
+        return f"(match {x} with | some {self.v(d)} => {inner} | none => false)"
+
+    def cells_self_now(self, env):
+        """`self` as a callee sees it: the record with the state attributes' current values"""
+        r = self.recs[self.fn.self_rec]
+        upd = [f"{a[5:]} := {self.v(a)}" for a in self.fn.state if a.startswith("self.") and a[5:] in r.fields and a in env]
+        if r.extern or len(upd) != len([a for a in self.fn.state if a.startswith("self.")]):
+            raise Untranslatable(f"{self.fn.qualname}: call on `self` after state writes: state attributes must be fields of a generated record")
+        return "{ self with " + ", ".join(upd) + " }"
+
+    def cells_state_list_call(self, c, env, k):
+        if not (isinstance(c.func, ast.Attribute) and isinstance(c.func.value, ast.Attribute) and c.func.attr in ("append", "remove")):
+            return None
+        x = _dotted(c.func.value)
+        if x not in self.fn.state or x not in env or not env[x] or env[x][0] != "L" or len(c.args) != 1 or c.keywords:
+            return None
+        t, _ = self.expr(c.args[0], env)
+        if c.func.attr == "append":
+            return self.let(self.v(x), f"{self.v(x)} ++ [{t}]") + k(env)
+        if not self.fn.list_remove_raises:
+            return self.let(self.v(x), f"{self.v(x)}.erase {t}") + k(env)
+        return [f"if ({self.v(x)}.contains {t}) then ("] + _ind(self.let(self.v(x), f"{self.v(x)}.erase {t}") + k(env)) + \
+            [") else ("] + _ind([self.wrap_ret(None, error="Value")]) + [")"]
+
+    def cells_record_method_call(self, c, env, k):
+        """`x.m(args)` as a statement, x a parameter of record type that is also registry state (returned), m a translated function
+           with state attributes on that record and no effects: x's fields become what m returns; an error of m is passed on"""
+        if not (isinstance(c.func, ast.Attribute) and isinstance(c.func.value, ast.Name) and c.func.attr in self.group) or c.keywords:
+            return None
+        x, (gfn, rty) = c.func.value.id, self.group[c.func.attr]
+        tx = env.get(x)
+        if not (tx and tx[0] == "R" and tx[1] == gfn.self_rec and x in self.fn.state and gfn.state and not gfn.effects and not gfn.snapshot
+                and all(a.startswith("self.") for a in gfn.state)):
+            return None
+        args = [f"self.{self.fn.self_as}" if isinstance(a, ast.Name) and a.id == "self" and self.fn.self_as else self.expr(a, env)[0]
+                for a in c.args]
+        raises = rty[0] == "T" and rty[1] != "Unit" and rty[1][0] == "E"
+        if rty[0] == "T" and not raises and len(rty) - 1 != len(gfn.state):
+            return None                                   # a mutator that also returns a value: outside the subset
+        vs = [f"r{i + 1}_" for i in range(len(gfn.state))]
+        upd = "{ " + self.v(x) + " with " + ", ".join(f"{a[5:]} := {v}" for a, v in zip(gfn.state, vs)) + " }"
+        call = "(" + " ".join([gfn.name, self.v(x), *args]) + ")"
+        if not raises:
+            return self.let("(" + ", ".join(vs) + ")" if len(vs) > 1 else vs[0], call) + self.let(self.v(x), upd) + k(env)
+        if not self.can_raise:
+            self.bad(c, f"call of `{c.func.attr}`, which can raise, in a function the translator took for non-raising")
+        err = self.wrap_ret(None, error="Exception").replace(".error Py.Err.Exception", ".error e_", 1)
+        return [f"match {call} with", f"| ({', '.join(['.error e_'] + ['_'] * len(vs))}) => {err}",
+                f"| ({', '.join(['.ok _'] + vs)}) => ("] + _ind(self.let(self.v(x), upd) + k(env)) + [")"]
+
     def translate(self, node: ast.FunctionDef):
         fn = self.fn
         a = node.args
@@ -922,6 +1040,9 @@ class Translator:
                 binders.append(f"({self.v(n)} : {lean_ty(fn.varargs[n])})")
         self.can_raise = any(isinstance(n, (ast.Raise, ast.While)) for n in ast.walk(node)) or any(
             isinstance(n, ast.Call) and _dotted(n.func) in ("heappop", "heapq.heappop") for n in ast.walk(node))
+        if fn.list_remove_raises and any(isinstance(n, ast.Call) and isinstance(n.func, ast.Attribute) and n.func.attr == "remove"
+                                         and _dotted(n.func.value) in fn.state for n in ast.walk(node)):
+            self.can_raise = True
         if fn.fuel:
             binders.append("(fuel : Nat)")
         self.returns_value = any(isinstance(n, ast.Return) and n.value is not None and not (
